@@ -266,3 +266,25 @@ def addScalar (a : Nd) (c : X Rat) : Nd :=
   | .mat m => .mat (m.map (fun r => r.map (fun v => X.add v c)))
 
 end Py.Disc
+
+/-! ## model of `Aggregated.highest_activated_term` -/
+
+namespace Op.Weighted
+variable {α : Type} [Field α] [LinearOrder α] [IsStrictOrderedRing α] {ν : Type} [DecidableEq ν]
+
+/-- one iteration of the loop: the first group with a positive degree becomes the highest; afterwards a group with
+    a strictly larger degree replaces it (ties keep the earlier group; a NaN degree never wins) -/
+def highestStep (h : Option (Act ν α)) (a : Act ν α) : Option (Act ν α) :=
+  match h with
+  | none => if X.lt (X.fin 0) a.2 then some a else none
+  | some b => if X.lt b.2 a.2 then some a else some b
+
+/-- `Aggregated.highest_activated_term()`: `none` = `ValueError` (the degree of some group is a vector: `size` of
+    it exceeds one), otherwise the group with the highest aggregated degree, or Python's `None` when no group has a
+    positive degree -/
+def highestActivated (size : X α → Nat) (agg : Option (X α → X α → X α)) (acts : List (Act ν α)) :
+    Option (Option (Act ν α)) :=
+  let gs := groupedTerms agg acts
+  if gs.any (fun g => decide (size g.2 > 1)) then none else some (gs.foldl highestStep none)
+
+end Op.Weighted
